@@ -150,6 +150,70 @@ pub fn gen_case(seed: u64, k: u64, emu: &str) -> GCase {
     GCase { id: format!("g{seed}-{emu}-{k}"), emu: emu.to_string(), bytes }
 }
 
+/// RIP "state x drawing" family: state-setting commands (view port incl. corners on and beyond the canvas edge, fill style,
+/// line style, write mode, font style, colour, short palettes, text window) followed by well-formed drawing commands over
+/// coordinate classes (origin, inside, last pixel 639/349, first pixel outside 640/350, base-36 maximum 1295).
+pub fn rip_state_cases(thorough: bool, seed: u64) -> Vec<GCase> {
+    fn b36(v: i32, n: usize) -> String {
+        let d = b"0123456789ABCDEFGHIJKLMNOPQRSTUVWXYZ";
+        let mut v = v.max(0) as usize;
+        let mut s = vec![b'0'; n];
+        for i in (0..n).rev() { s[i] = d[v % 36]; v /= 36; }
+        String::from_utf8(s).unwrap()
+    }
+    let p2 = |v: i32| b36(v, 2);
+    let mut setters: Vec<String> = vec![];
+    for (x0, y0, x1, y1) in [(0, 0, 639, 349), (0, 0, 640, 350), (0, 0, 639, 350), (0, 0, 640, 349), (0, 0, 1295, 1295), (10, 10, 100, 100), (100, 100, 10, 10), (639, 349, 639, 349), (0, 0, 0, 0), (320, 0, 640, 175)] {
+        setters.push(format!("|v{}{}{}{}", p2(x0), p2(y0), p2(x1), p2(y1)));
+    }
+    for pat in 0..=12 { for col in [0, 15] { setters.push(format!("|S{}{}", p2(pat), p2(col))); } }
+    for st in 0..=4 { for th in [1, 3] { setters.push(format!("|={}{}{}", p2(st), b36(0x5555 % 1296, 4), p2(th))); } }
+    for m in 0..=2 { setters.push(format!("|W{}", p2(m))); }
+    for f in 0..=10 { for dir in [0, 1] { for sz in [1, 4, 10] { setters.push(format!("|Y{}{}{}00", p2(f), p2(dir), p2(sz))); } } }
+    for c in 0..=16 { setters.push(format!("|c{}", p2(c))); }
+    for n in [1usize, 5, 16] { setters.push(format!("|Q{}", (0..n).map(|i| p2((i * 4) as i32 % 64)).collect::<String>())); }
+    for (x0, y0, x1, y1) in [(0, 0, 79, 42), (0, 0, 0, 0), (10, 5, 5, 10), (0, 0, 90, 60)] { setters.push(format!("|w{}{}{}{}10", p2(x0), p2(y0), p2(x1), p2(y1))); }
+    let coords: [[i32; 4]; 6] = [[0, 0, 5, 5], [10, 10, 100, 60], [0, 0, 639, 349], [630, 340, 640, 350], [5, 5, 1295, 1295], [639, 349, 0, 0]];
+    let mut drawers: Vec<String> = vec![];
+    for c in coords {
+        let [a, b, x, y] = c;
+        let r = (x - a).abs().min(400);
+        let ry = (y - b).abs().min(300);
+        drawers.push(format!("|L{}{}{}{}", p2(a), p2(b), p2(x), p2(y)));
+        drawers.push(format!("|R{}{}{}{}", p2(a), p2(b), p2(x), p2(y)));
+        drawers.push(format!("|B{}{}{}{}", p2(a), p2(b), p2(x), p2(y)));
+        drawers.push(format!("|C{}{}{}", p2(x), p2(y), p2(r)));
+        drawers.push(format!("|O{}{}{}{}{}{}", p2(x), p2(y), p2(0), p2(270), p2(r), p2(ry)));
+        drawers.push(format!("|o{}{}{}{}", p2(x), p2(y), p2(r), p2(ry)));
+        drawers.push(format!("|A{}{}{}{}{}", p2(x), p2(y), p2(0), p2(90), p2(r)));
+        drawers.push(format!("|I{}{}{}{}{}", p2(x), p2(y), p2(0), p2(90), p2(r)));
+        drawers.push(format!("|i{}{}{}{}{}{}", p2(x), p2(y), p2(0), p2(90), p2(r), p2(ry)));
+        drawers.push(format!("|X{}{}", p2(x), p2(y)));
+        drawers.push(format!("|F{}{}{}", p2(x), p2(y), p2(15)));
+        drawers.push(format!("|F{}{}{}", p2(a), p2(b), p2(0)));
+        drawers.push(format!("|P03{}{}{}{}{}{}", p2(a), p2(b), p2(x), p2(b), p2(x), p2(y)));
+        drawers.push(format!("|p03{}{}{}{}{}{}", p2(a), p2(b), p2(x), p2(b), p2(x), p2(y)));
+        drawers.push(format!("|l03{}{}{}{}{}{}", p2(a), p2(b), p2(x), p2(b), p2(x), p2(y)));
+        drawers.push(format!("|Z{}{}{}{}{}{}{}{}{}", p2(a), p2(b), p2(x), p2(b), p2(x), p2(y), p2(a), p2(y), p2(10)));
+        drawers.push(format!("|@{}{}Text", p2(x), p2(y)));
+        drawers.push(format!("|m{}{}|TText", p2(x), p2(y)));
+        drawers.push(format!("|1C{}{}{}{}0|1P{}{}000", p2(a), p2(b), p2(x), p2(y), p2(a), p2(b)));
+        drawers.push(format!("|1G{}{}{}{}0{}", p2(a), p2(b), p2(x), p2(y), p2(b)));
+        drawers.push("|E|e|*|H|>".to_string());
+    }
+    let mut out = vec![];
+    for (i, st) in setters.iter().enumerate() {
+        // the view port / text window decide which pixels exist for every later primitive: all drawers, in every tier
+        let per = if thorough || st.starts_with("|v") || st.starts_with("|w") { drawers.len() } else { 4 };
+        for j in 0..per {
+            let d = &drawers[(i * per + j + seed as usize) % drawers.len()];
+            let b = format!("!{st}{d}|#|#|#\r\n").into_bytes();
+            out.push(GCase { id: format!("s-rip-{i}-{j}"), emu: "rip".into(), bytes: b });
+        }
+    }
+    out
+}
+
 /// IGS "state x drawing" family: every enumerated value tuple of the state-setting commands (line / marker type, fill
 /// attributes, colour set, drawing mode, hollow, pen colour, resolution, text effects) followed by drawing commands with
 /// well-formed parameter lists over coordinate classes (origin, inside, last pixel, first pixel outside, far outside).
@@ -283,6 +347,7 @@ pub fn c20(a: &Args) {
     let table: Vec<Value> = std::fs::read_to_string(a.str("table", "gen/gfx_table.ndjson")).map(|t| t.lines().filter_map(|l| serde_json::from_str(l).ok()).collect()).unwrap_or_default();
     let mut all = table_cases(thorough, seed, &table);
     all.extend(igs_state_cases(thorough, seed));
+    all.extend(rip_state_cases(thorough, seed));
     let n_rand = if thorough { 30000 } else { 3000 };
     for k in 0..n_rand {
         all.push(gen_case(seed, k, if k % 2 == 0 { "rip" } else { "igs" }));
